@@ -26,6 +26,7 @@ def plan(tier):
         q.native_repo_srcs = q.repo_srcs
         q.native_shim = True
         q.native_defines = ['VF_PRESTART=1']
+        q.extra_cbmc = ['--sat-solver', 'cadical', '--slice-formula']
         qs.append(q)
     return qs
 
